@@ -1,0 +1,18 @@
+//go:build verif
+
+package term
+
+import "git.sr.ht/~rockorager/vaxis"
+
+// Hook for the verification harness under /verif (property C18). Compiled only
+// with `-tags verif`; adds an entry point to the unexported SGR handler and
+// changes no behaviour.
+
+// VerifC18Sgr sets the cursor (pen) style of vt to start, applies one SGR
+// parameter list through the emulator's own handler and returns the resulting
+// pen style.
+func VerifC18Sgr(vt *Model, start vaxis.Style, params [][]int) vaxis.Style {
+	vt.cursor.Style = start
+	vt.sgr(params)
+	return vt.cursor.Style
+}
